@@ -359,6 +359,64 @@ Qed.
 End Reals.
 
 (* ========================================================================================== *)
+(* Hook registration and repeated solve() calls on one object                                  *)
+Lemma fold_setFunctions_slots : forall calls h,
+  let r := fold_left setFunctions calls h in
+  slot_pre r = fold_left keep_or_set (map slot_pre calls) (slot_pre h) /\
+  slot_post r = fold_left keep_or_set (map slot_post calls) (slot_post h) /\
+  slot_header r = fold_left keep_or_set (map slot_header calls) (slot_header h) /\
+  slot_status r = fold_left keep_or_set (map slot_status calls) (slot_status h).
+Proof.
+  induction calls as [|c calls IH]; intros h; [simpl; auto|].
+  simpl. specialize (IH (setFunctions h c)). cbv zeta in IH.
+  destruct h as [[[a b] c0] d]. destruct c as [[[a' b'] c'] d']. exact IH.
+Qed.
+
+(* each slot holds the hook of the LAST call that gave one for it, whatever was (not) given for the
+   other slots before or after; never-given slots keep the default *)
+Lemma hooks_last_given calls :
+  slot_pre (hooks_after calls) = last_given (map slot_pre calls) /\
+  slot_post (hooks_after calls) = last_given (map slot_post calls) /\
+  slot_header (hooks_after calls) = last_given (map slot_header calls) /\
+  slot_status (hooks_after calls) = last_given (map slot_status calls).
+Proof. exact (fold_setFunctions_slots calls (None, None, None, None)). Qed.
+
+(* a call that does not give postProcess keeps the one registered before *)
+Lemma setFunctions_keeps_post h a c d : slot_post (setFunctions h (a, None, c, d)) = slot_post h.
+Proof. destruct h as [[[x y] z] w]. reflexivity. Qed.
+
+Section History.
+Open Scope R_scope.
+Tactic Notation "lra" := (cbn [T Rops] in *; Lra.lra).
+Definition good_seg (s : seg Rops) : Prop :=
+  0 < seg_sim Rops s /\ 0 < seg_fmin Rops s <= seg_fmax Rops s /\
+  seg_fuel Rops s = (2 + Z.to_nat (up (/ seg_fmin Rops s)))%nat.
+
+(* every call of a history honours the contract with ITS OWN duration and step fractions, starting
+   where the previous call ended *)
+Lemma history_contract snap : forall segs t0, Forall good_seg segs ->
+  Forall2 (fun (s : seg Rops) (tr : R * run Rops) =>
+     let t := fst tr in
+     exists l, snd tr = Done l /\
+       let ts := map fst l in
+       StronglySorted Rlt (t :: ts) /\ Forall (fun x => x <= t + seg_sim Rops s) ts /\
+       (forall k tk tk', nth_error (t :: ts) k = Some tk -> nth_error ts k = Some tk' ->
+          Rmin (seg_fmin Rops s * seg_sim Rops s) (t + seg_sim Rops s - tk) <= tk' - tk
+            <= Rmin (seg_fmax Rops s * seg_sim Rops s) (t + seg_sim Rops s - tk)) /\
+       match first_true (seg_stop Rops s) (length ts) with
+       | Some j => length ts = S j
+       | None => last ts t = t + seg_sim Rops s
+       end)
+    segs (solve_history Rops snap t0 segs).
+Proof.
+  induction segs as [|s segs IH]; intros t0 H; [constructor|].
+  inversion H as [|? ? Hs Hr]; subst. cbn [solve_history]. constructor; [|apply IH; auto].
+  destruct Hs as (H1 & H2 & H3). cbn [fst snd]. rewrite H3.
+  exact (solve_contract_R snap (seg_propose Rops s) (seg_stop Rops s) t0 (seg_sim Rops s) (seg_fmin Rops s) (seg_fmax Rops s) H1 H2).
+Qed.
+End History.
+
+(* ========================================================================================== *)
 (* State layout                                                                                *)
 Section ShapeLemmas.
 Variable A : Type.
